@@ -14,7 +14,7 @@ RULE = ('Hypothesis: initial datastore + 1..3 connections each with 1..4 request
         '(sync handlers run as threads in lock-step with the driver). Oracle: differential - byte-identical per-connection '
         'response streams and identical final table dumps across front-ends - plus the reference model applied in completion '
         'order predicts every data-access response byte-for-byte (so identically wrong copies do not pass). Non-trivial: >=2 '
-        'connections with interleaved chunks, or a write followed by a read on another connection; distinct by SHA-1. Requests carry a generated MBAP protocol id; in single mode every kind of unit id (0, 127, 128, 247..255) is addressed; datagrams may carry two requests.')
+        'connections with interleaved chunks, or a write followed by a read on another connection; distinct by SHA-1. Requests carry a generated MBAP protocol id; in single mode every kind of unit id (0, 127, 128, 247..255) is addressed; datagrams may carry two requests. Histories with one connection are also run on the threaded serial front-end; a request may be repeated byte for byte and a stream may deliver one whole request per read (also as a sweep over every framing).')
 ASSUMPTIONS = ['requests whose answer depends on process-wide diagnostic counters (FC 7, 8, 11, 12) are not generated (the Twisted copy counts bus messages, the property restricts itself to data access and identification)',
                'broadcast is not generated (Twisted has no broadcast option)',
                'binary scripts containing delimiter bytes in any frame are excluded and counted']
@@ -82,10 +82,16 @@ def _case(draw):
             tid += 1
             uid = draw(st.one_of(st.sampled_from(hosted), st.sampled_from([1, 2, 9]),
                                  st.sampled_from([0, 1, 127, 128, 247, 248, 250, 254, 255]) if single else st.sampled_from([1, 2, 9])))
+            if reqs and draw(st.sampled_from([False, False, False, False, True])):
+                # the previous request once more, byte for byte on the framings without a transaction id (a master repeating
+                # a write; the response to FC 5 / 6 is itself an echo of the request)
+                reqs.append(dict(reqs[-1], tid=tid))
+                continue
             reqs.append({'uid': uid, 'tid': tid, 'pdu': draw(_req()).hex(),
                          # MBAP protocol identifier of the request (socket framing only); clients send 0
                          'pid': draw(st.sampled_from([0, 0, 0, 0, 1, 0xFFFF, 0x0100]))})
-        conns.append({'requests': reqs, 'cuts': draw(gens.cuts()) if variant == 'stream' else ['frames']})
+        # stream: arbitrary cuts, or one whole request per read (with some reads carrying two: 'pack')
+        conns.append({'requests': reqs, 'cuts': draw(st.one_of(gens.cuts(), gens.cuts(), st.just(['frames']))) if variant == 'stream' else ['frames']})
     merge = draw(st.lists(st.integers(0, nconn - 1), min_size=0, max_size=20))
     return {'variant': variant, 'framing': framing, 'single': single, 'hosted': hosted,
             'ignore_missing_slaves': draw(st.booleans()), 'conns': conns, 'merge': merge,
@@ -99,6 +105,26 @@ def _case(draw):
 
 def strategy(tier):
     return _case()
+
+
+def sweeps(tier):
+    """histories in which a request is repeated byte for byte (the answer to FC 5 / 6 is an echo of the request, so the
+    repeated request also equals the front-end's own last transmission), one whole request per read, on every framing"""
+    cases = []
+    writes = ['0600050007', '0500030000', '050003ff00', '0600000000', '10000200010200ff', '0f00010003010' + '5', '0300050001', '0100030004']
+    for framing in ['tcp', 'rtu', 'ascii', 'binary']:
+        for variant in ('stream', 'datagram'):
+            for w in writes:
+                for reps in (2, 3, 4):
+                    for same_tid in ((False, True) if framing == 'tcp' else (False,)):
+                        reqs = [{'uid': 1, 'tid': 7 if same_tid else 7 + i, 'pdu': w, 'pid': 0} for i in range(reps)]
+                        reqs.append({'uid': 1, 'tid': 40, 'pdu': '0300000008', 'pid': 0})
+                        reqs.append({'uid': 1, 'tid': 41, 'pdu': '0100000008', 'pid': 0})
+                        for single, hosted in ((False, [1]), (True, [0])):
+                            cases.append({'variant': variant, 'framing': framing, 'single': single, 'hosted': hosted,
+                                          'ignore_missing_slaves': False, 'conns': [{'requests': reqs, 'cuts': ['frames']}],
+                                          'merge': [], 'idle': [], 'burst': [], 'pack': []})
+    return [('repeated-identical-requests-one-per-read', cases, False)]
 
 
 def _script(case):
@@ -221,6 +247,10 @@ def run_case(case):
         labels.append('idle-timeout')
     # ---- run every front-end of the variant
     fes = STREAM_FES if case['variant'] == 'stream' else DGRAM_FES
+    if case['variant'] == 'stream' and len(case['conns']) == 1:
+        # the threaded serial front-end (one line, hence one connection) is a stream front-end of the synchronous family too
+        fes = fes + ['sync_serial']
+        labels.append('with-serial-front-end')
     results = {}
     discs = []
     for fe in fes:
